@@ -208,3 +208,187 @@ def call_name(call):
         return ast.unparse(call.func)
     except Exception:
         return '?'
+
+
+# ---------------------------------------------------------------------------
+def possibly_undefined(cfg, rd):
+    """definite-assignment analysis over the statement graph (normal and exceptional edges): [(node, ast.Name)] for loads of a local
+    variable that is not assigned on every path from the entry to the load.  Exceptional edges leave a node with the assignments
+    the node itself makes NOT done.  Names bound by a comprehension inside the loading expression are not locals of the function."""
+    fn = cfg.fnode
+    locals_ = {name for name, ds in rd.by_name.items() if '.' not in name and any(d.kind != 'del' for d in ds)}
+    declared = set()
+    for x in ast.walk(fn):
+        if isinstance(x, (ast.Global, ast.Nonlocal)):
+            declared |= set(x.names)
+    locals_ -= declared
+    params = {d.name for d in rd.by_node.get(id(cfg.entry), [])}
+    ALL = frozenset(locals_)
+    gen = {}
+    kill = {}
+    for n in cfg.nodes:
+        ds = rd.by_node.get(id(n), []) if n is not cfg.entry else []
+        gen[id(n)] = frozenset(d.name for d in ds if '.' not in d.name and d.kind != 'del')
+        kill[id(n)] = frozenset(d.name for d in ds if d.kind == 'del')
+    preds = {id(n): [] for n in cfg.nodes}
+    for n in cfg.nodes:
+        for (t, kind, tok) in n.succ:
+            preds[id(t)].append((n, kind))
+    IN = {id(n): ALL for n in cfg.nodes}
+    IN[id(cfg.entry)] = frozenset(params & locals_) | frozenset(params)
+    OUT = {id(n): ALL for n in cfg.nodes}
+    OUT[id(cfg.entry)] = IN[id(cfg.entry)]
+    changed = True
+    order = list(cfg.nodes)
+    while changed:
+        changed = False
+        for n in order:
+            if n is cfg.entry:
+                continue
+            ps = preds[id(n)]
+            if ps:
+                acc = None
+                for (p, kind) in ps:
+                    v = OUT[id(p)] if kind == 'n' else IN[id(p)]
+                    acc = v if acc is None else (acc & v)
+                new_in = acc
+            else:
+                new_in = ALL        # unreachable
+            new_out = (new_in - kill[id(n)]) | gen[id(n)]
+            if new_in != IN[id(n)] or new_out != OUT[id(n)]:
+                IN[id(n)], OUT[id(n)] = new_in, new_out
+                changed = True
+    out = []
+    for n in cfg.nodes:
+        if n.dup or not preds[id(n)] and n is not cfg.entry:
+            continue
+        a = n.ast
+        if n.kind == 'branch' or not isinstance(a, ast.AST):
+            continue
+        if n.kind == 'with_enter':
+            a = a.context_expr
+        elif n.kind in ('for', 'for_init'):
+            a = getattr(a, 'iter', a)
+        elif n.kind == 'handler':
+            a = a.type
+            if a is None:
+                continue
+        elif n.kind == 'stmt' and isinstance(a, (ast.FunctionDef, ast.AsyncFunctionDef, ast.ClassDef)):
+            continue
+
+        def loads(e, bound):
+            if isinstance(e, (ast.ListComp, ast.SetComp, ast.GeneratorExp, ast.DictComp)):
+                b2 = set(bound)
+                for gen_ in e.generators:
+                    yield from loads(gen_.iter, b2)
+                    b2 |= {x.id for x in ast.walk(gen_.target) if isinstance(x, ast.Name)}
+                    for c in gen_.ifs:
+                        yield from loads(c, b2)
+                for part in ([e.key, e.value] if isinstance(e, ast.DictComp) else [e.elt]):
+                    yield from loads(part, b2)
+                return
+            if isinstance(e, ast.Lambda):
+                b2 = set(bound) | {a_.arg for a_ in e.args.args + e.args.kwonlyargs + e.args.posonlyargs}
+                yield from loads(e.body, b2)
+                return
+            if isinstance(e, (ast.FunctionDef, ast.AsyncFunctionDef, ast.ClassDef)):
+                return
+            if isinstance(e, ast.Name) and isinstance(e.ctx, ast.Load) and e.id not in bound:
+                yield e
+            for ch in ast.iter_child_nodes(e):
+                yield from loads(ch, bound)
+        walrus = {x.target.id for x in ast.walk(a) if isinstance(x, ast.NamedExpr)}
+        for nm in loads(a, set()):
+            if nm.id in locals_ and nm.id not in IN[id(n)] and nm.id not in walrus:
+                out.append((n, nm))
+    return out
+
+
+def undefined_witness(cfg, rd, node, name, limit=300000, load=None):
+    """a path entry -> node on which local `name` is never assigned, feasible under two cheap correlations: (a) a test with the same text as an
+    earlier test on the path (no name of it reassigned in between) goes the same way, (b) locals holding a constant decide the tests
+    `x`, `not x`, `x is None`, `x == c`.  Returns the list of nodes, None if there is no such path, or 'limit' when the search was cut off."""
+    from collections import deque
+    from . import graph as _g
+    defs_of_name = set(id(d.node) for d in rd.by_name.get(name, []) if d.kind != 'del')
+    by_id = {id(n): n for n in cfg.nodes}
+
+    def stored_names(n):
+        return {d.name for d in (rd.by_node.get(id(n), []) if n is not cfg.entry else []) if '.' not in d.name}
+    k0 = (id(cfg.entry), frozenset(), ())
+    prev = {k0: None}
+    work = deque([k0])
+    count = 0
+    while work:
+        key = work.popleft()
+        nid, facts, envt = key
+        n = by_id[nid]
+        count += 1
+        if count > limit:
+            return 'limit'
+        if n is node and not _short_circuit_excludes(n, load, facts, dict(envt)):
+            out = []
+            k = key
+            while k is not None:
+                out.append(by_id[k[0]])
+                k = prev[k]
+            return out[::-1]
+        env = dict(envt)
+        st = stored_names(n)
+        if st:
+            facts = frozenset(fa for fa in facts if not (fa[2] & st))
+            for nm in st:
+                env.pop(nm, None)
+            if n.kind == 'stmt' and isinstance(n.ast, ast.Assign) and len(n.ast.targets) == 1 and isinstance(n.ast.targets[0], ast.Name) and isinstance(n.ast.value, ast.Constant):
+                env[n.ast.targets[0].id] = n.ast.value.value
+        nenvt = tuple(sorted(env.items(), key=repr))
+        defines = nid in defs_of_name
+        for (t, kind, tok) in n.succ:
+            if defines and kind == 'n':
+                continue            # the normal continuation of a defining node has the name assigned
+            f2 = facts
+            if t.kind == 'branch' and t.attrs['test'].kind == 'test' and t.attrs['polarity'] in (True, False):
+                te = t.attrs['test'].ast
+                pol = t.attrs['polarity']
+                tr = _g._env_truth(te, env)
+                if tr is not None and tr != pol:
+                    continue
+                base, bp = te, pol
+                while isinstance(base, ast.UnaryOp) and isinstance(base.op, ast.Not):
+                    base, bp = base.operand, not bp
+                txt = ' '.join(ast.unparse(base).split())
+                if any(tt == txt and pp != bp for (tt, pp, _n) in facts):
+                    continue
+                if '(' not in txt:
+                    names = frozenset(x.id for x in ast.walk(base) if isinstance(x, ast.Name))
+                    f2 = facts | {(txt, bp, names)}
+            k2 = (id(t), f2, nenvt)
+            if k2 in prev:
+                continue
+            prev[k2] = key
+            work.append(k2)
+    return None
+
+
+def _short_circuit_excludes(n, load, facts, env):
+    """the load sits behind a short-circuit operand (`not exclude or normalize(...)`) whose required truth value contradicts the path"""
+    if load is None or not isinstance(n.ast, ast.AST):
+        return False
+    from . import graph as _g
+    try:
+        sc = _g.short_circuit_facts(n.ast, load)
+    except Exception:
+        return False
+    for fa in sc:
+        if fa.polarity not in (True, False) or not isinstance(fa.expr, ast.AST):
+            continue
+        base, bp = fa.expr, fa.polarity
+        while isinstance(base, ast.UnaryOp) and isinstance(base.op, ast.Not):
+            base, bp = base.operand, not bp
+        txt = ' '.join(ast.unparse(base).split())
+        if any(tt == txt and pp != bp for (tt, pp, _n) in facts):
+            return True
+        tr = _g._env_truth(base, env)
+        if tr is not None and tr != bp:
+            return True
+    return False
